@@ -153,6 +153,14 @@ package getoptions
 //@     && (forall r *[]string :: allocated(r) && r != c.pStringS ==> identical(*r, old_iter(*r)))
 //@     && (forall r *[]int :: allocated(r) && r != c.pIntS ==> identical(*r, old_iter(*r))) && (forall r *[]float64 :: allocated(r) && r != c.pFloat64S ==> identical(*r, old_iter(*r)))
 //@     && (forall m map[string]string :: allocated(m) && m != MapOf(c) ==> (forall k string :: (k in m) == old_iter(k in m) && m[k] == old_iter(m[k])))
+// Value intake (C01, C02). Accepts: what the greedy part of a multi-value option takes beyond its minimum.
+//@ spec func Accepts(t option.Type, v string) bool = (t == option.IntRepeatType ==> atoi_ok(v)) && (t == option.Float64RepeatType ==> pf_ok(v)) && (t == option.StringMapType ==> contains(v, "="))
+// Stored(c, v): the receiver of c reflects exactly one Save of the text v on top of the state at the head of the iteration.
+//@ spec func Stored(c *option.Option, v string) bool = (IsStringKind(c.OptType) ==> *c.pString == v)
+//@     && (IsIntKind(c.OptType) ==> *c.pInt == atoi_val(v)) && (IsFloatKind(c.OptType) ==> *c.pFloat64 == pf_val(v))
+//@     && (c.OptType == option.StringRepeatType ==> isappend1(*c.pStringS, old_iter(*c.pStringS), v))
+//@     && (c.OptType == option.IntRepeatType && !IsRange(v) ==> isappend1(*c.pIntS, old_iter(*c.pIntS), atoi_val(v)))
+//@     && (c.OptType == option.Float64RepeatType ==> isappend1(*c.pFloat64S, old_iter(*c.pFloat64S), pf_val(v)))
 //@ spec func PassOrWarn(n *programTree) bool = n.unknownMode == Pass || n.unknownMode == Warn
 
 //@ func parseCLIArgs
@@ -220,10 +228,21 @@ package getoptions
 //@     invariant min.idx: 0 <= iterator.idx && iterator.idx < len(args) && old_loop(iterator.idx) <= iterator.idx
 //@     invariant min.opt: OptOK(cOpt) && 0 <= i
 //@     decreases cOpt.MinArgs - i
+//@     step min.take {C01,C02}: !$exit ==> iterator.idx == old_iter(iterator.idx) + 1 && i == old_iter(i) + 1 && !LooksLikeOption(args[iterator.idx])
+//@     step min.saved {C01,C02}: !$exit ==> Stored(cOpt, args[iterator.idx])
+//@     step min.missing {C01,C02}: $entered && old_iter(iterator.idx) + 1 >= len(args) ==> $returned && erris(result2, ErrorParsing)
+//@     step min.dash {C01,C02}: $entered && old_iter(iterator.idx) + 1 < len(args) && LooksLikeOption(args[old_iter(iterator.idx) + 1]) ==> $returned && erris(result2, ErrorParsing)
+//@     step min.done: !$entered ==> iterator.idx == old_iter(iterator.idx) && old_iter(i) >= cOpt.MinArgs
 //@   loop MAX_LOOP
 //@     modifies iterator.idx, *cOpt.pBool, *cOpt.pString, *cOpt.pInt, *cOpt.pFloat64, *cOpt.pStringS, *cOpt.pIntS, *cOpt.pFloat64S, mapof(MapOf(cOpt))
 //@     invariant max.idx: 0 <= iterator.idx && iterator.idx < len(args) && old_loop(iterator.idx) <= iterator.idx
 //@     invariant max.opt: OptOK(cOpt) && 0 <= i
 //@     decreases cOpt.MaxArgs - i
+//@     step max.take {C02,C04}: !$exit ==> iterator.idx == old_iter(iterator.idx) + 1 && i == old_iter(i) + 1
+//@       && !LooksLikeOption(args[iterator.idx]) && args[iterator.idx] != "--" && Accepts(cOpt.OptType, args[iterator.idx])
+//@     step max.saved {C02}: !$exit ==> Stored(cOpt, args[iterator.idx])
+//@     step max.stop {C02}: $exit && !$returned ==> iterator.idx == old_iter(iterator.idx)
+//@       && (old_iter(i) >= cOpt.MaxArgs || old_iter(iterator.idx) + 1 >= len(args) || LooksLikeOption(args[old_iter(iterator.idx) + 1])
+//@           || args[old_iter(iterator.idx) + 1] == "--" || !Accepts(cOpt.OptType, args[old_iter(iterator.idx) + 1]))
 //@   loop "for k, v := range currentProgramNode.ChildCommands"
 //@     invariant cmds.scanned: forall q string :: (q in $seen) ==> q != args[iterator.idx]
